@@ -5,19 +5,20 @@
        dead     comma separated ordinals that are dead from the start, or "-"
        lockinit absent | blank | pid<q>      (blank = empty or unparsable content)
        tokens   comma separated events: c<p> TryCreate, w<p> WritePid, r<p> Read, p<p> Probe,
-                x<p> Remove, k<p> Wake, u<p> Unlock, !<p> Crash, s<p> = whichever non-crash
-                event process p can take now
+                x<p> Remove, k<p> Wake, u<p> Unlock, !<p> Crash, a<p> Cancel (the waiter's context
+                is cancelled: enabled at W only), s<p> = whichever non-crash event process p can
+                take by itself now
      -> one line: "run" TAB obs;obs;...   (first obs = initial state, then one per token)
         obs = <event>/<enabled 0|1>/<lock>/<pc,pc,...>/<holders>/<guard>
         lock    absent | blank:<inode> | pid<q>:<inode>
-        pc      I | C<i> | R | P<i>.<q> | X<i> | X- | W | H<i> | D | Z(dead)
+        pc      I | C<i> | R | P<i>.<q> | X<i> | X- | W | G(gave up) | H<i> | D | Z(dead)
         holders ordinals joined by "+", or "-"
         guard   b = read_before_write fired on this step, u = remove_of_unexamined_inode, - = none
        a token that is not enabled leaves the state unchanged (enabled = 0)
 
-   explore <n> <dead> <lockinit> <depth> <maxcrash>
+   explore <n> <dead> <lockinit> <depth> <maxcrash> [<maxcancel>]
      breadth-first enumeration of the schedules of length <= depth with at most maxcrash Crash
-     events; states are identified up to renaming of inodes.  Prints one line per schedule worth
+     events and at most maxcancel (default 0) Cancel events; states are identified up to renaming of inodes.  Prints one line per schedule worth
      replaying: every transition (state, event) of the explored graph is the last step of at
      least one printed schedule or an inner step of one.
      -> "sched" TAB tokens TAB <mutex violated 0|1> TAB <rbw fired 0|1> TAB <rui fired 0|1> TAB <leaf|edge>
@@ -36,6 +37,7 @@ let show_pc = function
   | WantRemove None -> "X-"
   | WantRemove (Some i) -> "X" ^ string_of_int (ni i)
   | Waiting -> "W"
+  | GaveUp -> "G"
   | Held i -> "H" ^ string_of_int (ni i)
   | Done -> "D"
   | Dead -> "Z"
@@ -65,6 +67,7 @@ let show_event = function
   | Wake p -> "k" ^ string_of_int (ni p)
   | Unlock p -> "u" ^ string_of_int (ni p)
   | Crash p -> "!" ^ string_of_int (ni p)
+  | Cancel p -> "a" ^ string_of_int (ni p)
 
 (* token -> event (None: an "s" token for a process with nothing to do) *)
 let parse_token s tok =
@@ -72,7 +75,7 @@ let parse_token s tok =
   match tok.[0] with
   | 'c' -> Some (TryCreate p) | 'w' -> Some (WritePid p) | 'r' -> Some (Read p)
   | 'p' -> Some (Probe p) | 'x' -> Some (Remove p) | 'k' -> Some (Wake p)
-  | 'u' -> Some (Unlock p) | '!' -> Some (Crash p)
+  | 'u' -> Some (Unlock p) | '!' -> Some (Crash p) | 'a' -> Some (Cancel p)
   | 's' -> next_event s p
   | _ -> failwith ("bad token " ^ tok)
 
@@ -130,7 +133,7 @@ let canon n s =
   List.iter (fun p ->
       Buffer.add_char b '|';
       Buffer.add_string b (match s.pcs (nn p) with
-          | Idle -> "I" | WantRead -> "R" | Waiting -> "W" | Done -> "D" | Dead -> "Z"
+          | Idle -> "I" | WantRead -> "R" | Waiting -> "W" | GaveUp -> "G" | Done -> "D" | Dead -> "Z"
           | Created i -> "C" ^ ino i
           | Held i -> "H" ^ ino i
           | WantProbe (i, q) -> Printf.sprintf "P%s.%d" (ino i) (ni q)
@@ -139,14 +142,16 @@ let canon n s =
     (range n);
   Buffer.contents b
 
-let do_explore = function
-  | [n; dead; lk; depth; maxcrash] ->
-    let n = int_of_string n and depth = int_of_string depth and maxcrash = int_of_string maxcrash in
+let rec do_explore = function
+  | [n; dead; lk; depth; maxcrash] -> do_explore [n; dead; lk; depth; maxcrash; "0"]
+  | [n; dead; lk; depth; maxcrash; maxcancel] ->
+    let n = int_of_string n and depth = int_of_string depth and maxcrash = int_of_string maxcrash
+    and maxcancel = int_of_string maxcancel in
     let s0 = mk_init (parse_dead dead) (parse_lockinit lk) in
     let seen = Hashtbl.create 4096 in
     Hashtbl.add seen (canon n s0) ();
-    (* frontier entries: state, reversed path, crashes used, viol, rbw, rui *)
-    let frontier = ref [(s0, [], 0, false, false, false)] in
+    (* frontier entries: state, reversed path, (crashes used, cancels used), viol, rbw, rui *)
+    let frontier = ref [(s0, [], (0, 0), false, false, false)] in
     let nsched = ref 0 and ntrans = ref 0 in
     let out = Buffer.create 65536 in
     let emit path v b u kind =
@@ -156,12 +161,13 @@ let do_explore = function
         (if v then 1 else 0) (if b then 1 else 0) (if u then 1 else 0) kind) in
     for d = 1 to depth do
       let nxt = ref [] in
-      List.iter (fun (s, path, cr, v, b, u) ->
+      List.iter (fun (s, path, (cr, cn), v, b, u) ->
           let any = ref false in
           List.iter (fun p ->
               let evs =
                 (match next_event s (nn p) with Some e -> [e] | None -> []) @
-                (if cr < maxcrash then [Crash (nn p)] else []) in
+                (if cr < maxcrash then [Crash (nn p)] else []) @
+                (if cn < maxcancel then [Cancel (nn p)] else []) in
               List.iter (fun e ->
                   match step s e with
                   | None -> ()
@@ -171,7 +177,7 @@ let do_explore = function
                     let b' = b || read_before_write s e
                     and u' = u || remove_of_unexamined_inode s e
                     and v' = v || List.length (holders n s') > 1
-                    and cr' = (match e with Crash _ -> cr + 1 | _ -> cr) in
+                    and cr' = (match e with Crash _ -> (cr + 1, cn) | Cancel _ -> (cr, cn + 1) | _ -> (cr, cn)) in
                     let key = canon n s' in
                     if Hashtbl.mem seen key then emit (e :: path) v' b' u' "edge"
                     else begin
